@@ -10,6 +10,9 @@ import os
 import re
 import sys
 
+sys.path.insert(0, os.path.dirname(os.path.abspath(__file__)))
+from rustconst import const
+
 
 def die(msg):
     print("ANCHOR-LOST stream.rs: " + msg)
@@ -25,12 +28,10 @@ def block(src, header):
 
 
 def num(tok):
-    tok = tok.replace("_", "")
-    if tok.startswith("0b"):
-        return int(tok[2:], 2)
-    if tok.startswith("0x"):
-        return int(tok[2:], 16)
-    return int(tok)
+    v = const(tok)
+    if v is None:
+        die("not a constant: " + tok)
+    return v
 
 
 def main():
@@ -42,11 +43,11 @@ def main():
     # code -> variant name (readers)
     def code_map(header):
         b = block(src, header)
-        return dict((num(c), v) for c, v in re.findall(r"(0b[01_]+)\s*=>\s*Ok\(Self::(\w+)", b))
+        return dict((num(c), v) for c, v in re.findall(r"(?<![\w.])(\d\w*)\s*=>\s*Ok\(Self::(\w+)", b))
 
     def value_map(header, ty):
         b = block(src, header)
-        return dict((v, num(n)) for v, n in re.findall(r"%s::(\w+)\s*=>\s*(\d[\d_]*)" % ty, b))
+        return dict((v, const(n)) for v, n in re.findall(r"%s::(\w+)\s*=>\s*([^,\n]+)," % ty, b) if const(n) is not None)
 
     bs_codes = code_map("impl FromBitStream for BlockSize<()>")
     bs_vals = value_map("impl From<BlockSize<u16>> for u16", "BlockSize")
@@ -59,7 +60,7 @@ def main():
 
     def write_map(header):
         b = block(src, header)
-        return dict((v, num(c)) for v, c in re.findall(r"Self::(\w+)(?:\(_\))?\s*=>\s*(0b[01_]+)", b))
+        return dict((v, const(c)) for v, c in re.findall(r"Self::(\w+)(?:\(_\))?\s*=>\s*([^,\n]+),", b) if const(c) is not None)
 
     bs_w = write_map("impl<B> ToBitStream for BlockSize<B>")
     rate_w = write_map("impl<R> ToBitStream for SampleRate<R>")
@@ -89,26 +90,29 @@ def main():
 
     # channel assignment: codes -> Independent(count) / LeftSide / SideRight / MidSide
     b = block(src, "impl FromBitStream for ChannelAssignment")
-    indep = re.findall(r"(0b[01]+)\s*=>\s*Ok\(Self::Independent\(Independent::(\w+)\)\)", b)
+    indep = re.findall(r"(?<![\w.])(\d\w*)\s*=>\s*Ok\(Self::Independent\(Independent::(\w+)\)\)", b)
     ind_enum = dict(re.findall(r"(\w+)\s*=\s*(\d+),", block(src, "pub enum Independent")))
     chan = []
     for c, name in indep:
         chan.append((num(c), int(ind_enum[name])))
-    stereo = dict((v, num(c)) for c, v in re.findall(r"(0b[01]+)\s*=>\s*Ok\(Self::(LeftSide|SideRight|MidSide)\)", b))
+    stereo = dict((v, num(c)) for c, v in re.findall(r"(?<![\w.])(\d\w*)\s*=>\s*Ok\(Self::(LeftSide|SideRight|MidSide)\)", b))
 
-    m = re.search(r"const SYNC_CODE: u32 = (0b[01]+);", src)
+    m = re.search(r"const SYNC_CODE: u32 = ([^;]+);", src)
     sync = num(m.group(1)) if m else die("SYNC_CODE")
-    m = re.search(r"const MAX_FRAME_NUMBER: u64 = \(1 << (\d+)\) - 1;", src)
-    maxfn = (1 << int(m.group(1))) - 1 if m else die("MAX_FRAME_NUMBER")
+    m = re.search(r"const MAX_FRAME_NUMBER: u64 = ([^;]+);", src)
+    maxfn = num(m.group(1)) if m else die("MAX_FRAME_NUMBER")
     m = re.search(r"pub const FIXED_COEFFS: \[&\[i64\]; 5\] = \[(.*?)\];", src)
     if not m:
         die("FIXED_COEFFS")
     coeffs = [[int(x) for x in re.findall(r"-?\d+", grp)] for grp in re.findall(r"&\[(.*?)\]", m.group(1))]
     b = block(src, "impl FromBitStream for SubframeHeaderType")
-    m = re.search(r"0b000000 => Ok\(Self::Constant\),\s*0b000001 => Ok\(Self::Verbatim\),\s*v @ (0b[01]+)\.\.=(0b[01]+) => Ok\(Self::Fixed \{\s*order: v - (0b[01]+),\s*\}\),\s*v @ (0b[01]+)\.\.=(0b[01]+) => Ok\(Self::Lpc \{\s*order: NonZero::new\(v - (\d+)\)", b)
-    if not m:
+    T = r"(\d\w*)"
+    m = re.search(T + r" => Ok\(Self::Constant\),\s*" + T + r" => Ok\(Self::Verbatim\),\s*v @ " + T + r"\.\.=" + T +
+                  r" => Ok\(Self::Fixed \{\s*order: v - " + T + r",\s*\}\),\s*v @ " + T + r"\.\.=" + T +
+                  r" => Ok\(Self::Lpc \{\s*order: NonZero::new\(v - " + T + r"\)", b)
+    if not m or num(m.group(1)) != 0 or num(m.group(2)) != 1:
         die("SubframeHeaderType::from_reader")
-    fixed_lo, fixed_hi, fixed_base, lpc_lo, lpc_hi, lpc_base = [num(x) for x in m.groups()]
+    fixed_lo, fixed_hi, fixed_base, lpc_lo, lpc_hi, lpc_base = [num(x) for x in m.groups()[2:]]
 
     def pairs(t):
         return "[" + "; ".join("(%d, %d)" % p for p in t) + "]"
